@@ -478,6 +478,17 @@ def collection_programs(g, rng, reps):
                         val = g.gen_value(mt)
                     code = [P('PUSH', gen_interp.ty_mich(mt), val), P('MAP', body)]
                     st = [('map', kt, out)]
+                    r0 = rng.random()
+                    if r0 < 0.25:
+                        # the source map stays alive next to the result (DUP before MAP): a value is typed by its own class, transforming
+                        # one copy must not retype the other (pytezos builds type classes at run time and shares their `args` lists)
+                        code = [P('PUSH', gen_interp.ty_mich(mt), val), P('DUP'), P('MAP', body)]
+                        st = [('map', kt, out), mt]
+                        if rng.random() < 0.5:      # … and the untouched copy is still usable at its own type
+                            code += [P('SWAP'), P('MAP', [P('CDR')]), P('SWAP')]
+                            st = [('map', kt, out), ('map', kt, vt)]
+                        progs.append((code, st, gen_env(rng)))
+                        continue
                     if rng.random() < 0.3:      # the result must still be usable as a map of the new type
                         code += [P('DUP'), P('SIZE'), P('SWAP'), P('ITER', [P('DROP')])]
                         st = [('nat',)]
